@@ -28,7 +28,7 @@ LEVEL_NOTE = ('Only cube packages fitted at tabulated wavelengths are covered (t
 RULE = ("cases: package configurations; executions: one plot() call per (n selected, display mode, input form), one evaluation per (fit, filter) point compared; non-trivial = distinct "
         "(configuration, n selected, mode, form) with more than one curve or more than one selected fit")
 ASSUMPTIONS = ["results come from cube packages fitted at tabulated wavelengths", "tolerance 2e-3 for the rounded physical constants"]
-REQUIRED_CLASSES = ['mode-interp', 'mode-largest', 'mode-largest+smallest', 'mode-all', 'multi-aperture', 'single-aperture', 'mixed-theta', 'form-object', 'form-file', 'five-fits',
+REQUIRED_CLASSES = ['whole-curve-identity', 'best-fit-exactly-tied', 'invalid-rows-before-selected-models', 'model-names-sharing-their-first-31-characters', 'mode-interp', 'mode-largest', 'mode-largest+smallest', 'mode-all', 'multi-aperture', 'single-aperture', 'mixed-theta', 'form-object', 'form-file', 'five-fits',
                     'distance-dependent', 'distance-independent', 'cube-wav-ascending', 'several-sources-one-call', 'apertures-stored-decreasing', 'cube-in-Jy', 'second-package-same-names', 'same-call-twice', 'law-in-other-unit', 'filter-wavelengths-in-mixed-units']
 TIMEOUT = {'quick': 600, 'thorough': 3000}
 
@@ -41,6 +41,13 @@ MODES = ['interp', 'largest', 'largest+smallest', 'all']
 def setup(tier, seed):
     # a package is distance dependent iff it tabulates several apertures (docs/creating_model_packages.rst)
     cfgs = [dict(c, apdep=(c['n_ap'] > 1)) for c in deviation_bounded(AXES, 2 if tier == 'quick' else 4)]
+    # whole-curve identity (every wavelength of the curve, not only the fitted ones) on packages with an exactly tied twin of the
+    # best model, invalid cube rows before the selected models, and model names of 33 characters that share their first 31
+    for n_ap in (1, 3):
+        for long_names in (False, True):
+            for invalid in (False, True):
+                for memmap in ((True,) if tier == 'quick' else (True, False)):
+                    cfgs.append({'identity': True, 'n_ap': n_ap, 'long': long_names, 'invalid': invalid, 'memmap': memmap})
     return {'tier': tier, 'seed': seed, 'cases': cfgs}
 
 
@@ -53,7 +60,135 @@ def evidence_extra(ctx):
             'alphabet_digest': 'seed=%d' % ctx['seed']}
 
 
+def _identity(ctx, case, rec, d):
+    """Every point of every curve is the SED of the model named at that rank, at the reported distance and A_V."""
+    from astropy import units as u
+    from sedfitter import plot
+    from sedfitter.fit import Fitter
+    from sedfitter.fit_info import FitInfoFile
+    from ref import fitref
+    seed = ctx['seed']
+    n_ap = case['n_ap']
+    apdep = n_ap > 1
+    rng = np.random.default_rng(seed * 43 + n_ap)
+    nm = (lambda i: 'robitaille17_spubhmi_m000001_i%02d' % i) if case['long'] else (lambda i: 'id_%s' % ('dbeacf'[i] if i < 6 else 'inv%d' % i))
+    names = [nm(i) for i in range(6)]                       # row 1 is the twin of row 3
+    aps = np.array([500.0, 2000.0, 9000.0])[:n_ap]
+    val = 10 ** rng.uniform(0, 1, (6, n_ap, 5))
+    val = np.cumsum(val, axis=1) * np.linspace(1, 1.3, n_ap)[None, :, None]
+    val[1] = val[3]
+    val[1][:, [1, 3]] = val[3][:, [1, 3]] * 1.7                # same fluxes at the three fitted wavelengths, others elsewhere: an exact tie
+    rows = list(range(6))
+    cube_names, cube_val, cube_valid = list(names), val.copy(), [1] * 6
+    if case['invalid']:
+        # two rows flagged invalid (no fluxes), stored before and between the valid ones
+        cube_names = [nm(90), names[0], names[1], nm(91)] + names[2:]
+        z = np.zeros((1,) + val.shape[1:])
+        cube_val = np.concatenate([z, val[0:2], z, val[2:]])
+        cube_valid = [0, 1, 1, 0, 1, 1, 1, 1]
+        rec.cls('invalid-rows-before-selected-models')
+    if case['long']:
+        rec.cls('model-names-sharing-their-first-31-characters')
+    md = os.path.join(d, 'pkg_id')
+    os.makedirs(md)
+    pkgwriter.write_conf(md, apdep, logd_step=0.1, version=2)
+    pkgwriter.write_parameters(md, cube_names, {'par1': np.arange(len(cube_names)) + 0.5}, pad=max(30, len(cube_names[0])))
+    pkgwriter.write_cube(md, cube_names, WAV, cube_val, unc=cube_val * 0.01, apertures_au=aps if apdep else None, valid=cube_valid)
+    theta = [1.0, 3.0, 2.0]
+    law = fc.law_object('power')
+    kall = fc.law_k('power', WAV)
+    try:
+        ft = Fitter([WAV[b] * u.micron for b in BANDS], np.array(theta) * u.arcsec, md, extinction_law=law, av_range=[0.0, 5.0],
+                    distance_range=np.array([0.6, 2.5]) * u.kpc, use_memmap=case['memmap'])
+    except Exception as e:
+        from mc.runner import exc_signature
+        rec.violation('plot|fitter|' + exc_signature(e), {'identity': True}, {'type': type(e).__name__, 'msg': str(e)[:300]})
+        return
+    k = np.asarray(ft.av_law, float)
+    src_flux = val[3, min(1, n_ap - 1), BANDS] * 10 ** (1.3 * k) / 1.2 ** 2
+    uap = np.unique(theta)
+    cfg = ('identity', n_ap, case['long'], case['invalid'], case['memmap'])
+    rec.state(cfg)
+    ncall = 0
+    for nsel in (2, 4):
+        for mode in MODES:
+            if n_ap > 1 and mode == 'interp':
+                continue          # the composite curve is only pinned at the filter wavelengths (the main family checks it there)
+            for form in ('object', 'file'):
+                ncall += 1
+                info = ft.fit(fc.make_source([1, 1, 1], src_flux, 0.1 * src_flux, name='src'))
+                rk_names = [str(x).strip() for x in np.asarray(info.model_name)[:nsel]]
+                rk_av = np.asarray(info.av, float)[:nsel].copy()
+                rk_sc = np.asarray(info.sc, float)[:nsel].copy()
+                chi = np.asarray(info.chi2, float)
+                if chi[0] == chi[1]:
+                    rec.cls('best-fit-exactly-tied')
+                if form == 'file':
+                    fn = os.path.join(d, 'id%d.fitinfo' % ncall)
+                    w = FitInfoFile(fn, 'w')
+                    w.write(info)
+                    w.close()
+                    arg = fn
+                else:
+                    arg = info
+                sub = {'n_selected': nsel, 'mode': mode, 'form': form, 'identity': True}
+                try:
+                    figs = plot(arg, output_dir=None, select_format=('N', nsel), sed_type=mode, memmap=case['memmap'])
+                    segs = [np.asarray(sg) for sg in figs['src']['lines'].get_segments()]
+                except Exception as e:
+                    from mc.runner import exc_signature
+                    rec.ev()
+                    rec.violation('plot|%s|%s' % (mode, exc_signature(e)), sub, {'type': type(e).__name__, 'msg': str(e)[:300]})
+                    continue
+                rec.trans()
+                rec.trace()
+                rec.nontriv((cfg, nsel, mode, form))
+                if n_ap == 1:
+                    ncur = 1 if mode in ('interp', 'largest') else (2 if mode == 'largest+smallest' else len(uap))
+                else:
+                    ncur = {'largest': 1, 'largest+smallest': 2, 'all': len(uap)}[mode]
+                rec.outcome(('identity', len(segs), nsel, mode))
+                if len(segs) != nsel * ncur:
+                    rec.violation('plot|%s|curve-count' % mode, sub, {'curves': len(segs), 'expected': nsel * ncur})
+                    continue
+                bad = None
+                for i in range(nsel):
+                    if rk_names[i] not in names:
+                        bad = 'fit rank %d names %r, which is not a valid model of the package' % (i + 1, rk_names[i])
+                        break
+                    m = names.index(rk_names[i])
+                    dk = 10 ** rk_sc[i]
+                    grp = segs[(nsel - 1 - i) * ncur:(nsel - i) * ncur]
+                    for jc, cur in enumerate(grp):
+                        if n_ap == 1:
+                            fm = val[m, 0, :]
+                        else:
+                            th = {'largest': [max(theta)], 'largest+smallest': [min(theta), max(theta)], 'all': list(uap)}[mode][jc]
+                            fm = np.array([fitref.interp_aperture(aps, val[m:m + 1, :, w_], [th * dk * 1000.0])[0, 0] for w_ in range(5)])
+                        expect = fm * 10 ** (rk_av[i] * kall) / dk ** 2 * 1e-26 * (299792458.0 / (WAV * 1e-6))
+                        for w_ in range(5):
+                            kx = int(np.argmin(np.abs(cur[:, 0] - WAV[w_])))
+                            rec.ev()
+                            if abs(cur[kx, 0] - WAV[w_]) > 1e-6 * WAV[w_]:
+                                bad = 'curve has no point at %r micron' % WAV[w_]
+                                break
+                            if abs(cur[kx, 1] / expect[w_] - 1.0) > 3e-3:
+                                other = [names[q] for q in range(6) if q != m and n_ap == 1 and abs(cur[kx, 1] / (val[q, 0, w_] * 10 ** (rk_av[i] * kall[w_]) / dk ** 2 * 1e-26 * (299792458.0 / (WAV[w_] * 1e-6))) - 1.0) < 3e-3]
+                                bad = 'fit rank %d is %s: at %r micron (%s) its curve is at %r, that model scaled and reddened as reported gives %r%s' % (
+                                    i + 1, rk_names[i], WAV[w_], 'a fitted wavelength' if w_ in BANDS else 'not a fitted wavelength', cur[kx, 1], expect[w_], (' (this is the SED of %s)' % other[0]) if other else '')
+                                break
+                        if bad:
+                            break
+                    if bad:
+                        break
+                rec.cls('whole-curve-identity')
+                if bad:
+                    rec.violation('plot|%s|curve-is-not-the-named-model' % mode, sub, {'problem': bad, 'ranking': rk_names, 'chi2': chi[:nsel]})
+
+
 def run_case(ctx, case, rec, d):
+    if case.get('identity'):
+        return _identity(ctx, case, rec, d)
     from astropy import units as u
     from sedfitter import plot
     from sedfitter.fit import Fitter
